@@ -1,12 +1,12 @@
 \* for every reachable test case, every API call and every argument: guard => WF afterwards
 CONSTANTS
   NObj = 2
-  Types = {"A"}
+  Types = {"A", "B"}
   MaxLen = 3
   MaxDeps = 1
-  MaxUses = 1
+  MaxUses = 2
   MaxStmts = 3
-  MaxCtr = 3
+  MaxCtr = 4
   MaxSteps = 2
   InsertGuard = "as_coded"
   Raw = FALSE
